@@ -168,33 +168,33 @@ def listTrim (db : DB) (k : Bytes) (a b : Int) (now : Int) : Res :=
         let victims := (rows.filter (fun x => !keepPos.contains x.pos)).map (·.pos)
         .ok (.int victims.length) (listDeleteRows db r.id victims now)
 
-/-- `insert`: `sqlInsert` then `sqlInsertAfter` / `sqlInsertBefore` -/
+/-- `insert`: `sqlInsertKey` (find the key), `sqlInsertAfter` / `sqlInsertBefore` (insert next to
+the pivot), then `sqlInsert` (bump the key row). A missing pivot — including the empty list, from
+which `insert … select … from rlist where kid = ? limit 1` selects no row — is reported before
+anything has been changed. -/
 def listInsert (db : DB) (k p e : Bytes) (after : Bool) (now : Int) : Res :=
   match db.liveKeyT k TList now with
   | none => .err .notFound db
   | some r0 =>
-    -- sqlInsert: the key row is bumped before the pivot is looked for
-    let db1 := db.updKey r0.id (fun o =>
-      { o with version := o.version + 1, mtime := now, len := o.len.map (· + 1) })
-    let n : Val := match r0.len with | some n => .int (n + 1) | none => .nil
-    let rows := listRows db1 r0.id
-    -- `insert … select … from rlist where kid = ? limit 1`: nothing to select from an empty list
-    if rows.isEmpty then .ok n db1
-    else
-      let pivots := (rows.filter (fun x => x.elem == p)).map (·.pos)
-      match dyMin pivots with
-      | none => .err .pivotNotFound db1        -- NOT NULL constraint failed: rlist.pos
-      | some pv =>
-        let newpos : Dyadic :=
-          if after then
-            (match dyMin ((rows.filter (fun x => decide (pv < x.pos))).map (·.pos)) with
-             | none => round53 (pv + 1)
-             | some nx => mid53 pv nx)
-          else
-            (match dyMax ((rows.filter (fun x => decide (x.pos < pv))).map (·.pos)) with
-             | none => round53 (pv - 1)
-             | some pr => mid53 pr pv)
-        if (rows.map (·.pos)).contains newpos then .err .sqlUnique db1
-        else .ok n { db1 with lists := db1.lists ++ [{ kid := r0.id, pos := newpos, elem := e }] }
+    let rows := listRows db r0.id
+    let pivots := (rows.filter (fun x => x.elem == p)).map (·.pos)
+    match dyMin pivots with
+    | none => .err .pivotNotFound db           -- NOT NULL constraint failed: rlist.pos / no row inserted
+    | some pv =>
+      let newpos : Dyadic :=
+        if after then
+          (match dyMin ((rows.filter (fun x => decide (pv < x.pos))).map (·.pos)) with
+           | none => round53 (pv + 1)
+           | some nx => mid53 pv nx)
+        else
+          (match dyMax ((rows.filter (fun x => decide (x.pos < pv))).map (·.pos)) with
+           | none => round53 (pv - 1)
+           | some pr => mid53 pr pv)
+      if (rows.map (·.pos)).contains newpos then .err .sqlUnique db
+      else
+        let db1 : DB := { db with lists := db.lists ++ [{ kid := r0.id, pos := newpos, elem := e }] }
+        let db2 := db1.updKey r0.id (fun o =>
+          { o with version := o.version + 1, mtime := now, len := o.len.map (· + 1) })
+        .ok (match r0.len with | some n => .int (n + 1) | none => .nil) db2
 
 end Redka.Model
